@@ -18,6 +18,15 @@ def gen_cases(ctx, n_graphs, cfgs_per_graph):
               G.gen_graph(rng, cap=ctx.budget(400, 3000)))
         layers, dist = G.ref_bfs(gd, [gd["central"]])
         starts = G.gen_starts(rng, gd, dist)
+        if gd["kind"] == "perm" and gi % 5 == 3 and len(set(gd["central"])) >= 2:
+            # start states OUTSIDE the orbit of the central state (another multiset of the same colours): the search is about the start set, not the central state
+            f_ = list(rng.choice(sorted(dist)))
+            i_ = rng.randrange(len(f_))
+            f_[i_] = rng.choice(sorted(set(gd["central"]) - {f_[i_]}))
+            cand = rng.choice([[f_], [f_, list(gd["central"])], starts + [f_]])
+            if tuple(f_) not in dist and G.ref_bfs(gd, cand, ctx.budget(500, 3000)) is not None:
+                starts = cand
+                ctx.count("start_sets_outside_the_central_orbit")
         for ci in range(cfgs_per_graph):
             cfgd = G.gen_config(rng, gd)
             if gi % 12 == 8 and ci == 0:
